@@ -113,9 +113,11 @@ def mk_arc(inner, ty="Arc<?>", name=None, rc=1):
 def mk_handle(ctx, eng, st, cfg):
     """symbolic CopyHandle {infd, outfd, metadata, config}"""
     h = OpaqueV("operations::CopyHandle", "handle")
-    h.attrs[("f", None, ctx.field("CopyHandle", "infd"))] = OpaqueV("std::fs::File", "infd")
+    meta = OpaqueV("std::fs::Metadata", "src_meta")
+    # the handle's metadata is the source descriptor's metadata: File::metadata(infd) returns the same facts
+    h.attrs[("f", None, ctx.field("CopyHandle", "infd"))] = OpaqueV("std::fs::File", "infd", {"meta": meta})
     h.attrs[("f", None, ctx.field("CopyHandle", "outfd"))] = OpaqueV("std::fs::File", "outfd")
-    h.attrs[("f", None, ctx.field("CopyHandle", "metadata"))] = OpaqueV("std::fs::Metadata", "src_meta")
+    h.attrs[("f", None, ctx.field("CopyHandle", "metadata"))] = meta
     h.attrs[("f", None, ctx.field("CopyHandle", "config"))] = mk_arc(cfg, "Arc<config::Config>", "cfg_arc", rc=2)
     return h
 
